@@ -4,10 +4,14 @@
     `devinfoGet`, `connectLoop`), each `(f s …).2.time ≤ s.time + …`;
   * which exceptions can come out (`struct.error` only, besides the final `TimeoutError`);
   * the silent-link computations;
-  * the receive-thread body against a script that starts with an empty read.
+  * the receive-thread body against a script that starts with an empty read;
+  * the receive-thread body makes a bounded number of reads per invocation, whatever the script
+    (`fill_reads`, `readHdr_reads`, `readFrame_reads`, `serial_declaredLen_lt`).
 -/
 import NxsModel.Handshake
 import NxsModel.Reasm
+import NxsModel.Lemmas.Reasm
+import NxsModel.Lemmas.SerialLawful
 namespace Nxs
 namespace Handshake
 open Gen.Comm
@@ -296,6 +300,7 @@ end Handshake
 
 /-! ### the receive-thread body against a script starting with an empty read -/
 namespace Reasm
+open Serial (Hdr Frame)
 
 theorem fill_nil_cons (n fuel : Nat) (b : Bytes) (rs : List Bytes) :
     fill n fuel b ([] :: rs) = (none, b, rs) ∨ fill n fuel b ([] :: rs) = (none, b, [] :: rs) ∨
@@ -321,7 +326,7 @@ theorem readHdr_nil_cons (c : Codec) : ∀ (fuel : Nat) (buf : Bytes) (rs : List
       · split
         · exact readHdr_nil_cons c fuel _ rs
         · split
-          · exact readHdr_nil_cons c fuel _ rs
+          · simp       -- bad header: returns (F20 repair), script untouched
           · simp
 
 theorem fillFrame_nil_cons (n fuel : Nat) (b : Bytes) (rs : List Bytes) :
@@ -358,6 +363,225 @@ theorem readFrame_nil_cons (c : Codec) (fuel : Nat) (buf : Bytes) (rs : List Byt
 theorem readFrame_idle (c : Codec) (fuel : Nat) (buf : Bytes) (h : buf.length < c.hdrLen) :
     readFrame c (fuel + 1) buf [] = (none, buf, []) := by
   simp [readFrame, readHdr, fill, readNext, h]
+
+/-! ### one invocation of the receive-thread body performs a bounded number of reads
+
+Since the bad-header branch of `_read_hdr` returns (F20 repair) no loop of the body can be kept
+alive by the link: `fill` stops as soon as `hdr_len` bytes are there, the "candidate not complete"
+re-entry of `_read_hdr` happens at most once (afterwards the buffer starts with the start byte), and
+the rest-of-frame loop stops at the declared length.  None of this needs a fuel assumption: less
+fuel only means fewer reads. -/
+
+/-- the frame length declared by the header `_read_hdr` returned (0 when it returned none) -/
+def declaredLen (r : HdrRes) : Nat :=
+  match r.hdr with
+  | some (h, _) => h.flen
+  | none => 0
+
+/-- the accumulation loop: it consumes a prefix of the script of at most `n - |b|` reads, only
+    appends to the buffer, and `some` means the buffer is long enough -/
+theorem fill_reads (n : Nat) : ∀ (fuel : Nat) (b : Bytes) (rs : List Bytes) (o : Option Bytes)
+    (b' : Bytes) (rs' : List Bytes), fill n fuel b rs = (o, b', rs') →
+    ∃ k, rs' = rs.drop k ∧ k ≤ n - b.length ∧ (∃ m, b' = b ++ m) ∧
+      (∀ x, o = some x → x = b' ∧ n ≤ b'.length) := by
+  intro fuel
+  induction fuel with
+  | zero =>
+    intro b rs o b' rs' h
+    simp only [fill, Prod.mk.injEq] at h
+    obtain ⟨rfl, rfl, rfl⟩ := h
+    exact ⟨0, rfl, by omega, ⟨[], by simp⟩, fun x hx => by cases hx⟩
+  | succ fuel ih =>
+    intro b rs o b' rs' h
+    rw [fill] at h
+    by_cases hb : b.length < n
+    · rw [if_pos hb] at h
+      cases rs with
+      | nil =>
+        simp only [readNext, List.isEmpty_nil, if_true, Prod.mk.injEq] at h
+        obtain ⟨rfl, rfl, rfl⟩ := h
+        exact ⟨0, rfl, by omega, ⟨[], by simp⟩, fun x hx => by cases hx⟩
+      | cons r rs1 =>
+        by_cases hr : r.isEmpty = true
+        · simp only [readNext, hr, if_true, Prod.mk.injEq] at h
+          obtain ⟨rfl, rfl, rfl⟩ := h
+          exact ⟨1, rfl, by omega, ⟨[], by simp⟩, fun x hx => by cases hx⟩
+        · simp only [readNext, hr] at h
+          have hrl : 1 ≤ r.length := by
+            cases r with
+            | nil => simp at hr
+            | cons y t => simp
+          obtain ⟨k, h1, h2, ⟨m, h3⟩, h4⟩ := ih (b ++ r) rs1 o b' rs' h
+          refine ⟨k + 1, by rw [h1]; simp, ?_, ⟨r ++ m, by rw [h3]; simp⟩, h4⟩
+          simp at h2
+          omega
+    · rw [if_neg hb] at h
+      simp only [Prod.mk.injEq] at h
+      obtain ⟨rfl, rfl, rfl⟩ := h
+      refine ⟨0, rfl, by omega, ⟨[], by simp⟩, fun x hx => ?_⟩
+      cases hx
+      exact ⟨rfl, by omega⟩
+
+theorem fillFrame_reads (n : Nat) : ∀ (fuel : Nat) (b : Bytes) (rs : List Bytes),
+    ∃ k, (fillFrame n fuel b rs).2 = rs.drop k ∧ k ≤ n - b.length := by
+  intro fuel
+  induction fuel with
+  | zero => intro b rs; exact ⟨0, rfl, by omega⟩
+  | succ fuel ih =>
+    intro b rs
+    rw [fillFrame]
+    by_cases hb : b.length < n
+    · rw [if_pos hb]
+      cases rs with
+      | nil => exact ⟨0, by simp [readNext], by omega⟩
+      | cons r rs1 =>
+        by_cases hr : r.isEmpty = true
+        · exact ⟨1, by simp [readNext, hr], by omega⟩
+        · simp only [readNext, hr, Bool.false_eq_true, ↓reduceIte]
+          have hrl : 1 ≤ r.length := by
+            cases r with
+            | nil => simp at hr
+            | cons y t => simp
+          obtain ⟨k, h1, h2⟩ := ih (b ++ r) rs1
+          refine ⟨k + 1, by rw [h1]; simp, ?_⟩
+          simp at h2
+          omega
+    · rw [if_neg hb]
+      exact ⟨0, rfl, by omega⟩
+
+/-- a header returned by `_read_hdr` decodes from the bytes returned with it, and those are at
+    least a header long (any codec, any fuel) -/
+theorem readHdr_some (c : Codec) : ∀ (fuel : Nat) (buf : Bytes) (rs : List Bytes) (h : Hdr) (bb : Bytes),
+    (readHdr c fuel buf rs).hdr = some (h, bb) → c.hdrDecode bb = .ok h ∧ c.hdrLen ≤ bb.length
+  | 0, buf, rs, h, bb => by simp [readHdr]
+  | fuel + 1, buf, rs, h, bb => by
+    unfold readHdr
+    split
+    · simp
+    · split
+      · simp
+      · dsimp only
+        split
+        · exact readHdr_some c fuel _ _ h bb
+        · next hlen =>
+          split
+          · simp
+          · next h' hdec =>
+            intro e
+            simp only [Option.some.injEq, Prod.mk.injEq] at e
+            obtain ⟨rfl, rfl⟩ := e
+            exact ⟨hdec, by omega⟩
+
+section Laws
+variable {c : Codec} (hc : LawfulCodec c)
+include hc
+
+/-- `_read_hdr` entered with a buffer that starts with the start byte: no re-entry, at most
+    `hdr_len - |buf|` reads -/
+theorem readHdr_reads_sof (fuel : Nat) (t : Bytes) (rs : List Bytes) :
+    ∃ k, (readHdr c fuel (c.sof :: t) rs).reads = rs.drop k ∧ k ≤ c.hdrLen - (c.sof :: t).length := by
+  cases fuel with
+  | zero => exact ⟨0, rfl, by omega⟩
+  | succ fuel =>
+    rw [readHdr]
+    rcases hfill : fill c.hdrLen (fuel + 1) (c.sof :: t) rs with ⟨fo, fb, frs⟩
+    obtain ⟨k, h1, h2, ⟨m, h3⟩, h4⟩ := fill_reads c.hdrLen (fuel + 1) _ rs fo fb frs hfill
+    refine ⟨k, ?_, h2⟩
+    cases fo with
+    | none => exact h1
+    | some x =>
+      obtain ⟨hx, hlen⟩ := h4 x rfl
+      subst hx
+      simp only
+      have hfind : c.hdrFind x = some 0 := by
+        rw [hc.hdrFind_eq, h3, List.cons_append, findByte_cons_self]
+      rw [hfind]
+      simp only [List.drop_zero]
+      rw [if_neg (by omega)]
+      cases c.hdrDecode x <;> exact h1
+
+/-- `_read_hdr` in general: at most one re-entry ("candidate not complete"), hence at most
+    `(hdr_len - |buf|) + (hdr_len - 1)` reads -/
+theorem readHdr_reads (fuel : Nat) (buf : Bytes) (rs : List Bytes) :
+    ∃ k, (readHdr c fuel buf rs).reads = rs.drop k ∧ k ≤ (c.hdrLen - buf.length) + (c.hdrLen - 1) := by
+  cases fuel with
+  | zero => exact ⟨0, rfl, by omega⟩
+  | succ fuel =>
+    rw [readHdr]
+    rcases hfill : fill c.hdrLen (fuel + 1) buf rs with ⟨fo, fb, frs⟩
+    obtain ⟨k, h1, h2, _, h4⟩ := fill_reads c.hdrLen (fuel + 1) _ rs fo fb frs hfill
+    cases fo with
+    | none => exact ⟨k, h1, by omega⟩
+    | some x =>
+      obtain ⟨hx, hlen⟩ := h4 x rfl
+      subst hx
+      simp only
+      cases hfind : c.hdrFind x with
+      | none => exact ⟨k, h1, by omega⟩
+      | some i =>
+        simp only
+        rw [hc.hdrFind_eq] at hfind
+        obtain ⟨_, t, ht⟩ := findByte_some hfind
+        by_cases hshort : (x.drop i).length < c.hdrLen
+        · rw [if_pos hshort, ht]
+          obtain ⟨k2, e1, e2⟩ := readHdr_reads_sof hc fuel t frs
+          refine ⟨k + k2, ?_, ?_⟩
+          · rw [e1, h1, List.drop_drop]
+          · simp at e2; omega
+        · rw [if_neg hshort]
+          cases c.hdrDecode (x.drop i) <;> exact ⟨k, h1, by omega⟩
+
+/-- one invocation of the receive-thread body consumes a prefix of the script whose length is
+    bounded by the header length and the declared frame length only -/
+theorem readFrame_reads (fuel : Nat) (buf : Bytes) (rs : List Bytes) :
+    ∃ k, (readFrame c fuel buf rs).2.2 = rs.drop k ∧
+      k ≤ (c.hdrLen - buf.length) + (c.hdrLen - 1) + (declaredLen (readHdr c fuel buf rs) - c.hdrLen) := by
+  obtain ⟨k, h1, h2⟩ := readHdr_reads hc fuel buf rs
+  have hsome := readHdr_some c fuel buf rs
+  unfold readFrame declaredLen
+  rcases hr : readHdr c fuel buf rs with ⟨ho, hb, hrs⟩
+  rw [hr] at h1 hsome
+  simp only at h1 hsome
+  rcases ho with _ | ⟨h, bb⟩
+  · exact ⟨k, h1, by omega⟩
+  · simp only
+    obtain ⟨_, hlen⟩ := hsome h bb rfl
+    obtain ⟨k2, e1, e2⟩ := fillFrame_reads h.flen fuel bb hrs
+    rcases hff : fillFrame h.flen fuel bb hrs with ⟨b2, rs2⟩
+    rw [hff] at e1
+    simp only at e1 ⊢
+    have hres : rs2 = rs.drop (k + k2) := by rw [e1, h1, List.drop_drop]
+    refine ⟨k + k2, ?_, by omega⟩
+    split
+    · exact hres
+    · split <;> exact hres
+
+end Laws
+
+/-- the serial header's length field is two bytes -/
+theorem serial_flen_lt {d : Bytes} {h : Hdr} (hd : Serial.hdrDecode d = .ok h) : h.flen < 65536 := by
+  match d, hd with
+  | a :: b :: c :: e :: rest, hd =>
+    rw [Serial.hdrDecode_cons] at hd
+    have hb := b.isLt
+    have hc := c.isLt
+    split at hd
+    · cases hd
+    · split at hd
+      · cases hd
+      · cases hd; simp only; omega
+  | [], hd => rw [Serial.hdrDecode_short _ (by simp)] at hd; cases hd
+  | [_], hd => rw [Serial.hdrDecode_short _ (by simp)] at hd; cases hd
+  | [_, _], hd => rw [Serial.hdrDecode_short _ (by simp)] at hd; cases hd
+  | [_, _, _], hd => rw [Serial.hdrDecode_short _ (by simp)] at hd; cases hd
+
+theorem serial_declaredLen_lt (fuel : Nat) (buf : Bytes) (rs : List Bytes) :
+    declaredLen (readHdr Serial.codec fuel buf rs) < 65536 := by
+  have hsome := readHdr_some Serial.codec fuel buf rs
+  unfold declaredLen
+  rcases hr : (readHdr Serial.codec fuel buf rs).hdr with _ | ⟨h, bb⟩
+  · simp
+  · exact serial_flen_lt (hsome h bb hr).1
 
 end Reasm
 end Nxs
